@@ -28,6 +28,10 @@ Definition signed (ty : N) (o : list output) : list (Z * Z * blockid) :=
 Lemma signed_app ty a b : signed ty (a ++ b) = signed ty a ++ signed ty b.
 Proof. apply flat_map_app. Qed.
 
+Definition errs (e : verr) : list output := match e with E_none => [] | _ => [OVoteErr e] end.
+Lemma signed_errs ty e o : signed ty (errs e ++ o) = signed ty o.
+Proof. rewrite signed_app. destruct e; reflexivity. Qed.
+
 Section Phases.
 Variable E : env.
 Variables h r : Z.
@@ -116,24 +120,35 @@ Proof.
   - destruct (cs_lblock s); repeat match goal with |- context [if ?c then _ else _] => destruct c end; cs; reflexivity.
 Qed.
 
-Lemma add_prevote_eq s v peer hv' :
+Lemma add_prevote_eq s v peer hv' e :
   cs_halted s = false -> cs_height s = v_height v -> v_type v = PREVOTE ->
-  hv_add_vote (cs_votes s) v peer = (hv', true, E_none) ->
-  handle E s (IVote v peer) = prevote_tail v (polka_update (v_round v) (set_votes hv' s)).
+  hv_add_vote (cs_votes s) v peer = (hv', true, e) ->
+  handle E s (IVote v peer) =
+  (let '(s9, o9) := prevote_tail v (polka_update (v_round v) (set_votes hv' s)) in (s9, errs e ++ o9)).
 Proof.
   intros Hh H1 Ty Ea. unfold handle. rewrite Hh. unfold add_vote.
   replace (v_height v + 1 =? cs_height s) with false by (symmetry; apply Z.eqb_neq; lia).
   cbn [andb]. rewrite <- H1, Z.eqb_refl. cbn [negb]. rewrite Ea. cbn [negb].
   rewrite Ty. change (PREVOTE =? PREVOTE)%N with true. cbv iota.
-  unfold prevote_tail. rewrite polka_update_height. cs.
-  match goal with |- (let '(s9, o9) := ?X in _) = _ => destruct X as [s9 o9] end. reflexivity.
+  unfold prevote_tail. rewrite polka_update_height. cs. reflexivity.
 Qed.
 
-Lemma add_prevote_hv s d pv pc pv' :
+(* a vote that VoteSet.AddVote does not add changes nothing but the vote bookkeeping *)
+Lemma add_vote_skip s v peer hv' e :
+  cs_halted s = false -> cs_height s = v_height v ->
+  hv_add_vote (cs_votes s) v peer = (hv', false, e) ->
+  handle E s (IVote v peer) = (set_votes hv' s, errs e).
+Proof.
+  intros Hh H1 Ea. unfold handle. rewrite Hh. unfold add_vote.
+  replace (v_height v + 1 =? cs_height s) with false by (symmetry; apply Z.eqb_neq; lia).
+  cbn [andb]. rewrite <- H1, Z.eqb_refl. cbn [negb]. rewrite Ea. reflexivity.
+Qed.
+
+Lemma add_prevote_hv s v peer pv pc pv' added e :
   lookup_round r (hv_sets (cs_votes s)) = Some (pv, pc) ->
-  v_round (d_vote d) = r -> v_type (d_vote d) = PREVOTE ->
-  vs_add pv (d_vote d) = (pv', true, E_none) ->
-  hv_add_vote (cs_votes s) (d_vote d) (d_peer d) = (hv_put (cs_votes s) r PREVOTE pv', true, E_none).
+  v_round v = r -> v_type v = PREVOTE ->
+  vs_add pv v = (pv', added, e) ->
+  hv_add_vote (cs_votes s) v peer = (hv_put (cs_votes s) r PREVOTE pv', added, e).
 Proof.
   intros L Hr Ty Ea. rewrite (hv_add_vote_existing _ _ _ pv pc) by (try rewrite Hr; auto).
   rewrite Ty. change (PREVOTE =? PREVOTE)%N with true. cbv iota. rewrite Ea, Hr. reflexivity.
@@ -200,21 +215,25 @@ Qed.
 
 (* ---------------------------------------------------------------- phase 2, one prevote *)
 
-Lemma P2_step rem pv pc s d s' o :
-  P2 (d_idx d :: rem) pv pc s -> ~ In (d_idx d) rem -> vote_from (vs_vals pv) PREVOTE d ->
-  handle E s (d_input d) = (s', o) ->
-  exists pv', P2 rem pv' pc s' /\ tally Bid pv' = tally Bid pv + d_power d /\ vs_vals pv' = vs_vals pv /\
-    ((vs_maj23 pv = None /\ vs_maj23 pv' = None /\ signed PRECOMMIT o = []) \/
-     (vs_maj23 pv = None /\ vs_maj23 pv' = Some Bid /\ o = [OSignVote PRECOMMIT h r Bid]) \/
-     (vs_maj23 pv = Some Bid /\ vs_maj23 pv' = Some Bid /\ o = [])).
+(* a prevote for (h, r) — whoever signed it — that the round's vote set ADDS *)
+Definition is_vote_at (ty : N) (v : vote) : Prop := v_height v = h /\ v_round v = r /\ v_type v = ty.
+
+Definition p2_outcome (pv pv' : voteset) (o : list output) : Prop :=
+  (vs_maj23 pv = None /\ vs_maj23 pv' = None /\ signed PRECOMMIT o = []) \/
+  (vs_maj23 pv = None /\ vs_maj23 pv' = Some Bid /\ signed PRECOMMIT o = [(h, r, Bid)]) \/
+  (vs_maj23 pv = Some Bid /\ vs_maj23 pv' = Some Bid /\ signed PRECOMMIT o = []).
+
+Lemma P2_core rem rem' pv pv' pc s v peer e s' o :
+  P2 rem pv pc s -> is_vote_at PREVOTE v ->
+  vs_add pv v = (pv', true, e) -> open_for Bid rem' pv' -> same_frame pv pv' ->
+  (forall m, vs_maj23 pv = Some m -> vs_maj23 pv' = Some m) ->
+  handle E s (IVote v peer) = (s', o) ->
+  P2 rem' pv' pc s' /\ p2_outcome pv pv' o.
 Proof.
-  intros ((A1 & A2 & A3 & A4 & A5 & A6) & L & Hr & Pk & Op & Fr & Mn & Ms) Hni Vf Eq.
-  pose proof Vf as (G1 & G2 & G3 & G4 & G5 & G6 & G7 & G8 & G9).
-  destruct (vs_add_open Bid (d_idx d) rem pv (d_power d) (d_vote d) Op Hni
-              (vote_from_good _ _ _ _ Fr eq_refl Vf)) as (pv' & Ea & Op' & Ta & Sf & Mono).
+  intros ((A1 & A2 & A3 & A4 & A5 & A6) & L & Hr & Pk & Op & Fr & Mn & Ms) (G4 & G5 & G6) Ea Op' Sf Mono Eq.
   destruct Sf as (Sf1 & Sf2 & Sf3 & Sf4).
   assert (Fr' : vs_frame PREVOTE pv') by (destruct Fr as (F1 & F2 & F3); unfold vs_frame; repeat split; congruence).
-  pose proof (add_prevote_hv s d pv pc pv' L G5 G6 Ea) as Ehv.
+  pose proof (add_prevote_hv s v peer pv pc pv' true e L G5 G6 Ea) as Ehv.
   set (hv' := hv_put (cs_votes s) r PREVOTE pv') in *.
   assert (L' : lookup_round r (hv_sets hv') = Some (pv', pc)).
   { subst hv'. rewrite (hv_put_lookup_same _ _ _ _ pv pc L). reflexivity. }
@@ -223,7 +242,6 @@ Proof.
   assert (Pk' : pr_polr p < 0 \/ (pr_polr p < r /\ o_has_maj23 (prevotes hv' (pr_polr p)) = true)).
   { destruct Pk as [Pk|[Pk1 Pk2]]; [left; exact Pk|]. right. split; [exact Pk1|].
     subst hv'. rewrite prevotes_put_other by lia. exact Pk2. }
-  exists pv'. unfold d_input in Eq.
   assert (Cases : (vs_maj23 pv = Some Bid /\ vs_maj23 pv' = Some Bid) \/
                   (vs_maj23 pv = None /\ vs_maj23 pv' = Some Bid) \/
                   (vs_maj23 pv = None /\ vs_maj23 pv' = None)).
@@ -231,10 +249,11 @@ Proof.
     - assert (m = Bid) by (destruct Op as (_ & _ & _ & [D|D] & _); congruence). subst m.
       left. rewrite (Mono _ eq_refl). auto.
     - destruct Op' as (_ & _ & _ & [D|D] & _); rewrite D; auto. }
+  unfold p2_outcome.
   destruct Cases as [[M M'] | [[M M'] | [M M']]].
   - (* the polka was already known: nothing happens *)
     destruct (Ms M) as [St [Lk1 Lk2]].
-    rewrite (add_prevote_eq s (d_vote d) (d_peer d) hv' A1 ltac:(congruence) G6 Ehv) in Eq. rewrite G5 in Eq.
+    rewrite (add_prevote_eq s v peer hv' e A1 ltac:(congruence) G6 Ehv) in Eq. rewrite G5 in Eq.
     set (s1 := set_votes hv' s) in *.
     assert (Hm1 : o_maj23 (prevotes (cs_votes s1) r) = Some (Some (hb, ph))) by (subst s1; cs; rewrite Pv'; exact M').
     destruct (polka_update_polka r s1 hb ph b Hm1 ltac:(subst s1; cs; auto) ltac:(subst s1; cs; auto) Hhash
@@ -254,27 +273,28 @@ Proof.
     rewrite M', PC in Eq. cbn [orb] in Eq. rewrite A2 in Eq.
     rewrite enter_precommit_noop in Eq by (try congruence; rewrite F4, St; cbn; lia).
     injection Eq as <- <-.
-    split; [|split; [exact Ta | split; [exact Sf1 | right; right; auto]]].
-    apply (P2_intro rem pv' pc s2 hv'); auto; try congruence.
+    split; [|right; right; rewrite signed_errs; auto].
+    apply (P2_intro rem' pv' pc s2 hv'); auto; try congruence.
     intros _. split; [congruence|]. unfold locked_now. split; congruence.
   - (* this prevote completes the polka: lock and precommit *)
     destruct (Mn M) as [St Lk].
-    destruct (progress_precommit_full E s (d_vote d) (d_peer d) hv' E_none hb ph p b s' o) as
+    destruct (progress_precommit_full E s v peer hv' e hb ph p b s' o) as
       (Ho & B1 & B2 & B3 & B4 & B5 & B6 & B7 & B8 & B9 & (K1 & K2) & PP); auto; try congruence.
     + rewrite G5, Pv'. exact M'.
     + destruct Pk' as [Q|[_ Q]]; auto.
     + destruct Lk as [Q|(_ & _ & Q)]; [left; exact Q | right; congruence].
     + specialize (PP ltac:(rewrite A6; apply has_header_one)).
-      rewrite Hme in Ho. cbn [app] in Ho. rewrite A2, A3 in Ho.
-      split; [|split; [exact Ta | split; [exact Sf1 | right; left; auto]]].
-      apply (P2_intro rem pv' pc s' hv'); auto; try congruence.
+      rewrite Hme in Ho. rewrite A2, A3 in Ho.
+      split; [|right; left; split; [exact M | split; [exact M'|]]].
+      2:{ rewrite Ho. change (match e with E_none => [] | _ => [OVoteErr e] end) with (errs e). rewrite signed_errs. reflexivity. }
+      apply (P2_intro rem' pv' pc s' hv'); auto; try congruence.
       intros _. split; [exact B4|]. unfold locked_now.
         destruct Lk as [Q|(Q1 & Q2 & _)].
         * rewrite Q in K2. cbn [hashes_to] in K2. destruct K2 as [K2 K3]. split; congruence.
         * rewrite Q1 in K2. cbn [hashes_to] in K2. rewrite Hhash, N.eqb_refl in K2. destruct K2 as [K2 K3]. split; congruence.
   - (* still no polka: at most the prevote-wait timeout is scheduled *)
     destruct (Mn M) as [St Lk].
-    rewrite (add_prevote_eq s (d_vote d) (d_peer d) hv' A1 ltac:(congruence) G6 Ehv) in Eq. rewrite G5 in Eq.
+    rewrite (add_prevote_eq s v peer hv' e A1 ltac:(congruence) G6 Ehv) in Eq. rewrite G5 in Eq.
     set (s1 := set_votes hv' s) in *.
     assert (PU : polka_update r s1 = s1).
     { unfold polka_update. subst s1. cs. rewrite Pv'. cbn [o_maj23]. rewrite M'. reflexivity. }
@@ -282,8 +302,8 @@ Proof.
     assert (S1 : cs_halted s1 = false /\ cs_height s1 = h /\ cs_round s1 = r /\ cs_step s1 = cs_step s /\ cs_votes s1 = hv')
       by (subst s1; cs; auto).
     destruct S1 as (S1 & S2 & S3 & S4 & S5).
-    assert (Base : P2 rem pv' pc s1).
-    { apply (P2_intro rem pv' pc s1 hv'); subst s1; cs; auto; try congruence. }
+    assert (Base : P2 rem' pv' pc s1).
+    { apply (P2_intro rem' pv' pc s1 hv'); subst s1; cs; auto; try congruence. }
     unfold prevote_tail in Eq. rewrite G5, S2, S3, S5, S4, Pv' in Eq.
     rewrite Z.ltb_irrefl, Z.eqb_refl in Eq. cbn [andb o_maj23] in Eq.
     replace (step_le SPrevote (cs_step s)) with true in Eq by (destruct St as [-> | ->]; reflexivity).
@@ -292,10 +312,55 @@ Proof.
     + destruct (enter_prevote_wait_res s1 S1 S2 S3 ltac:(rewrite S4; exact St) ltac:(rewrite S5, Pv'; exact Any))
         as (sx & ox & Ex & Px & Cx & Stx).
       rewrite Ex in Eq. injection Eq as <- <-.
-      split; [|split; [exact Ta | split; [exact Sf1 | left; auto]]].
+      split; [|left; rewrite signed_errs; auto].
       eapply P2_transfer; [exact Base | exact Cx | right; auto].
     + injection Eq as <- <-.
-      split; [|split; [exact Ta | split; [exact Sf1 | left; auto]]]. exact Base.
+      split; [|left; rewrite signed_errs; auto]. exact Base.
+Qed.
+
+(* a prevote for (h, r) that the vote set does not add (duplicate, conflicting, invalid, ...) *)
+Lemma P2_skip rem rem' pv pv' pc s v peer e s' o :
+  P2 rem pv pc s -> is_vote_at PREVOTE v ->
+  vs_add pv v = (pv', false, e) -> open_for Bid rem' pv' -> same_frame pv pv' ->
+  vs_maj23 pv' = vs_maj23 pv ->
+  handle E s (IVote v peer) = (s', o) ->
+  P2 rem' pv' pc s' /\ p2_outcome pv pv' o.
+Proof.
+  intros ((A1 & A2 & A3 & A4 & A5 & A6) & L & Hr & Pk & Op & Fr & Mn & Ms) (G4 & G5 & G6) Ea Op' Sf Mj Eq.
+  destruct Sf as (Sf1 & Sf2 & Sf3 & Sf4).
+  assert (Fr' : vs_frame PREVOTE pv') by (destruct Fr as (F1 & F2 & F3); unfold vs_frame; repeat split; congruence).
+  pose proof (add_prevote_hv s v peer pv pc pv' false e L G5 G6 Ea) as Ehv.
+  set (hv' := hv_put (cs_votes s) r PREVOTE pv') in *.
+  assert (L' : lookup_round r (hv_sets hv') = Some (pv', pc)).
+  { subst hv'. rewrite (hv_put_lookup_same _ _ _ _ pv pc L). reflexivity. }
+  assert (Hr' : 0 <= r <= hv_round hv') by (subst hv'; rewrite hv_put_round; exact Hr).
+  assert (Pk' : pr_polr p < 0 \/ (pr_polr p < r /\ o_has_maj23 (prevotes hv' (pr_polr p)) = true)).
+  { destruct Pk as [Pk|[Pk1 Pk2]]; [left; exact Pk|]. right. split; [exact Pk1|].
+    subst hv'. rewrite prevotes_put_other by lia. exact Pk2. }
+  rewrite (add_vote_skip s v peer hv' e A1 ltac:(congruence) Ehv) in Eq. injection Eq as <- <-.
+  split.
+  - apply (P2_intro rem' pv' pc (set_votes hv' s) hv'); cs; auto.
+    + intro Hn. rewrite Mj in Hn. destruct (Mn Hn) as [St Lk]. split; [exact St|]. unfold lock_ok in *. cs. exact Lk.
+    + intro Hs. rewrite Mj in Hs. destruct (Ms Hs) as [St Lk]. split; [exact St|]. unfold locked_now in *. cs. exact Lk.
+  - unfold p2_outcome. rewrite Mj. assert (Es : signed PRECOMMIT (errs e) = []) by (destruct e; reflexivity).
+    destruct Op as (_ & _ & _ & [D|D] & _); rewrite D; [left | right; right]; auto.
+Qed.
+
+Lemma P2_step rem pv pc s d s' o :
+  P2 (d_idx d :: rem) pv pc s -> ~ In (d_idx d) rem -> vote_from (vs_vals pv) PREVOTE d ->
+  handle E s (d_input d) = (s', o) ->
+  exists pv', P2 rem pv' pc s' /\ tally Bid pv' = tally Bid pv + d_power d /\ same_frame pv pv' /\
+    (vs_vals pv' = vs_vals pv /\ vs_add pv (d_vote d) = (pv', true, E_none)) /\ p2_outcome pv pv' o.
+Proof.
+  intros HP Hni Vf Eq.
+  pose proof HP as (_ & _ & _ & _ & Op & Fr & _).
+  pose proof Vf as (G1 & G2 & G3 & G4 & G5 & G6 & G7 & G8 & G9).
+  destruct (vs_add_open Bid (d_idx d) rem pv (d_power d) (d_vote d) Op Hni
+              (vote_from_good _ _ _ _ Fr eq_refl Vf)) as (pv' & Ea & Op' & Ta & Sf & Mono).
+  exists pv'.
+  destruct (P2_core (d_idx d :: rem) rem pv pv' pc s (d_vote d) (d_peer d) E_none s' o HP
+              ltac:(unfold is_vote_at; auto) Ea Op' Sf Mono Eq) as [HP' Out].
+  split; [exact HP'|]. split; [exact Ta|]. split; [exact Sf|]. split; [split; [apply Sf | exact Ea]|]. exact Out.
 Qed.
 
 (* ---------------------------------------------------------------- phase 2, all prevotes *)
@@ -303,30 +368,36 @@ Qed.
 Lemma pcs_precommit : signed PRECOMMIT [OSignVote PRECOMMIT h r Bid] = [(h, r, Bid)].
 Proof. reflexivity. Qed.
 
+Lemma p2_outcome_trans pv pv1 pv2 o1 o2 :
+  p2_outcome pv pv1 o1 -> p2_outcome pv1 pv2 o2 -> p2_outcome pv pv2 (o1 ++ o2).
+Proof.
+  unfold p2_outcome. rewrite signed_app.
+  intros [(X1 & X2 & X3) | [(X1 & X2 & X3) | (X1 & X2 & X3)]] [(Y1 & Y2 & Y3) | [(Y1 & Y2 & Y3) | (Y1 & Y2 & Y3)]];
+    try congruence; rewrite X3, Y3; cbn [app];
+    first [left; repeat split; (assumption || reflexivity)
+          | right; left; repeat split; (assumption || reflexivity)
+          | right; right; repeat split; (assumption || reflexivity)].
+Qed.
+
+Lemma p2_outcome_refl rem pv : open_for Bid rem pv -> p2_outcome pv pv [].
+Proof. intros (_ & _ & _ & [D|D] & _); unfold p2_outcome; rewrite D; [left | right; right]; auto. Qed.
+
 Lemma P2_run : forall ds pv pc s s' os,
   P2 (map d_idx ds) pv pc s -> NoDup (map d_idx ds) -> Forall (vote_from (vs_vals pv) PREVOTE) ds ->
   run E s (map d_input ds) = (s', os) ->
   exists pv', P2 [] pv' pc s' /\ tally Bid pv' = tally Bid pv + powers_of ds /\ vs_vals pv' = vs_vals pv /\
-    ((vs_maj23 pv = None /\ vs_maj23 pv' = None /\ signed PRECOMMIT (concat os) = []) \/
-     (vs_maj23 pv = None /\ vs_maj23 pv' = Some Bid /\ signed PRECOMMIT (concat os) = [(h, r, Bid)]) \/
-     (vs_maj23 pv = Some Bid /\ vs_maj23 pv' = Some Bid /\ signed PRECOMMIT (concat os) = [])).
+    p2_outcome pv pv' (concat os).
 Proof.
   induction ds as [|d ds IH]; intros pv pc s s' os HP Hnd Hall Er.
   - cbn in Er. injection Er as <- <-. exists pv. split; [exact HP|]. split; [cbn; lia|]. split; [reflexivity|].
-    destruct HP as (_ & _ & _ & _ & (_ & _ & _ & [D|D] & _) & _); [left | right; right]; auto.
+    destruct HP as (_ & _ & _ & _ & O & _). exact (p2_outcome_refl _ _ O).
   - cbn [map run] in Er. destruct (handle E s (d_input d)) as [s1 o1] eqn:E1.
     destruct (run E s1 (map d_input ds)) as [s2 os2] eqn:E2. injection Er as <- <-.
     cbn [map] in HP, Hnd. inversion Hnd as [|x l Hni Hnd']; subst x l. inversion Hall as [|x l Hv Hall']; subst x l.
-    destruct (P2_step _ _ _ _ _ _ _ HP Hni Hv E1) as (pv1 & HP1 & T1 & V1 & C1).
+    destruct (P2_step _ _ _ _ _ _ _ HP Hni Hv E1) as (pv1 & HP1 & T1 & _ & (V1 & _) & C1).
     destruct (IH pv1 pc s1 s2 os2 HP1 Hnd' ltac:(rewrite V1; exact Hall') E2) as (pv2 & HP2 & T2 & V2 & C2).
     exists pv2. split; [exact HP2|]. split; [cbn [powers_of fold_right]; fold (powers_of ds); lia|]. split; [congruence|].
-    cbn [concat]. rewrite signed_app.
-    destruct C1 as [(X1 & X2 & X3) | [(X1 & X2 & X3) | (X1 & X2 & X3)]];
-      destruct C2 as [(Y1 & Y2 & Y3) | [(Y1 & Y2 & Y3) | (Y1 & Y2 & Y3)]]; try congruence;
-      rewrite ?X3, ?Y3, ?pcs_precommit; cbn [app];
-      first [left; repeat split; (assumption || reflexivity)
-            | right; left; repeat split; (assumption || reflexivity)
-            | right; right; repeat split; (assumption || reflexivity)].
+    cbn [concat]. eapply p2_outcome_trans; eassumption.
 Qed.
 
 (* ---------------------------------------------------------------- phase 3 *)
@@ -357,24 +428,23 @@ Definition precommit_tail (v : vote) (s1 : cstate) : cstate * list output :=
     else (s1, [])
   end.
 
-Lemma add_precommit_eq s v peer hv' :
+Lemma add_precommit_eq s v peer hv' e :
   cs_halted s = false -> cs_height s = v_height v -> v_type v = PRECOMMIT ->
-  hv_add_vote (cs_votes s) v peer = (hv', true, E_none) ->
-  handle E s (IVote v peer) = precommit_tail v (set_votes hv' s).
+  hv_add_vote (cs_votes s) v peer = (hv', true, e) ->
+  handle E s (IVote v peer) = (let '(s9, o9) := precommit_tail v (set_votes hv' s) in (s9, errs e ++ o9)).
 Proof.
   intros Hh H1 Ty Ea. unfold handle. rewrite Hh. unfold add_vote.
   replace (v_height v + 1 =? cs_height s) with false by (symmetry; apply Z.eqb_neq; lia).
   cbn [andb]. rewrite <- H1, Z.eqb_refl. cbn [negb]. rewrite Ea. cbn [negb].
   rewrite Ty. change (PRECOMMIT =? PREVOTE)%N with false. cbv iota.
-  unfold precommit_tail. cs.
-  match goal with |- (let '(s9, o9) := ?X in _) = _ => destruct X as [s9 o9] end. reflexivity.
+  unfold precommit_tail. cs. reflexivity.
 Qed.
 
-Lemma add_precommit_hv s d pv pc pc' :
+Lemma add_precommit_hv s v peer pv pc pc' added e :
   lookup_round r (hv_sets (cs_votes s)) = Some (pv, pc) ->
-  v_round (d_vote d) = r -> v_type (d_vote d) = PRECOMMIT ->
-  vs_add pc (d_vote d) = (pc', true, E_none) ->
-  hv_add_vote (cs_votes s) (d_vote d) (d_peer d) = (hv_put (cs_votes s) r PRECOMMIT pc', true, E_none).
+  v_round v = r -> v_type v = PRECOMMIT ->
+  vs_add pc v = (pc', added, e) ->
+  hv_add_vote (cs_votes s) v peer = (hv_put (cs_votes s) r PRECOMMIT pc', added, e).
 Proof.
   intros L Hr Ty Ea. rewrite (hv_add_vote_existing _ _ _ pv pc) by (try rewrite Hr; auto).
   rewrite Ty. change (PRECOMMIT =? PREVOTE)%N with false. cbv iota. rewrite Ea, Hr. reflexivity.
@@ -397,38 +467,32 @@ Proof.
     eexists _, _. split; [reflexivity|]. unfold same_core. cs. repeat split; auto.
 Qed.
 
-Lemma P3_step rem pc s d s' o :
-  P3 (d_idx d :: rem) pc s -> ~ In (d_idx d) rem -> vote_from (vs_vals pc) PRECOMMIT d ->
-  handle E s (d_input d) = (s', o) ->
-  In (ODecide h r hb) o \/
-  exists pc', P3 rem pc' s' /\ tally Bid pc' = tally Bid pc + d_power d /\ vs_vals pc' = vs_vals pc.
+Lemma P3_core rem rem' pc pc' s v peer e s' o :
+  P3 rem pc s -> is_vote_at PRECOMMIT v ->
+  vs_add pc v = (pc', true, e) -> open_for Bid rem' pc' -> same_frame pc pc' ->
+  handle E s (IVote v peer) = (s', o) ->
+  In (ODecide h r hb) o \/ P3 rem' pc' s'.
 Proof.
-  intros (A1 & A2 & A3 & A4 & A5 & A6 & (K1 & K2) & (pv & L) & Op & Fr & Mn) Hni Vf Eq.
-  pose proof Vf as (G1 & G2 & G3 & G4 & G5 & G6 & G7 & G8 & G9).
-  destruct (vs_add_open Bid (d_idx d) rem pc (d_power d) (d_vote d) Op Hni
-              (vote_from_good _ _ _ _ Fr eq_refl Vf)) as (pc' & Ea & Op' & Ta & Sf & Mono).
+  intros (A1 & A2 & A3 & A4 & A5 & A6 & (K1 & K2) & (pv & L) & Op & Fr & Mn) (G4 & G5 & G6) Ea Op' Sf Eq.
   destruct Sf as (Sf1 & Sf2 & Sf3 & Sf4).
   assert (Fr' : vs_frame PRECOMMIT pc') by (destruct Fr as (F1 & F2 & F3); unfold vs_frame; repeat split; congruence).
-  pose proof (add_precommit_hv s d pv pc pc' L G5 G6 Ea) as Ehv.
+  pose proof (add_precommit_hv s v peer pv pc pc' true e L G5 G6 Ea) as Ehv.
   set (hv' := hv_put (cs_votes s) r PRECOMMIT pc') in *.
   assert (L' : lookup_round r (hv_sets hv') = Some (pv, pc')).
   { subst hv'. rewrite (hv_put_lookup_same _ _ _ _ pv pc L). reflexivity. }
   assert (Pc' : precommits hv' r = Some pc') by (eapply precommits_lookup; exact L').
-  unfold d_input in Eq.
-  destruct Op' as (O1 & O2 & O3 & [M'|M'] & O5).
+  pose proof Op' as (O1 & O2 & O3 & [M'|M'] & O5).
   - (* no majority yet *)
-    right. exists pc'.
-    rewrite (add_precommit_eq s (d_vote d) (d_peer d) hv' A1 ltac:(congruence) G6 Ehv) in Eq.
+    right.
+    rewrite (add_precommit_eq s v peer hv' e A1 ltac:(congruence) G6 Ehv) in Eq.
     set (s1 := set_votes hv' s) in *.
     assert (S : cs_halted s1 = false /\ cs_height s1 = h /\ cs_round s1 = r /\ cs_step s1 = SPrecommit /\ cs_votes s1 = hv')
       by (subst s1; cs; auto).
     destruct S as (S1 & S2 & S3 & S4 & S5).
-    assert (Base : P3 rem pc' s1).
+    assert (Base : P3 rem' pc' s1).
     { unfold P3. subst s1. cs. do 6 (split; [auto|]). split; [unfold locked_now; cs; split; auto|].
-      split; [exists pv; exact L'|].
-      split; [unfold open_for; auto 10|]. split; [exact Fr' | exact M']. }
+      split; [exists pv; exact L'|]. split; [exact Op'|]. split; [exact Fr' | exact M']. }
     unfold precommit_tail in Eq. rewrite G5, S2, S3, S5, Pc' in Eq. cbn [o_maj23] in Eq. rewrite M' in Eq.
-    split; [|split; [exact Ta | exact Sf1]].
     destruct ((r <=? r) && o_has_any (Some pc')) eqn:Any.
     + apply andb_true_iff in Any as [_ Any].
       unfold seq in Eq. rewrite (enter_new_round_noop s1 S2 S3 S4), S1 in Eq.
@@ -440,11 +504,45 @@ Proof.
       split; [exists pvx; congruence|]. split; [exact B10|]. split; assumption.
     + injection Eq as <- <-. exact Base.
   - (* this precommit completes +2/3: decide *)
-    left. assert (Em : o_maj23 (precommits hv' (v_round (d_vote d))) = Some (Some (hb, ph))) by (rewrite G5, Pc'; exact M').
-    pose proof (progress_decide E s (d_vote d) (d_peer d) hv' E_none hb ph b (one_part ph) s' o
+    left. assert (Em : o_maj23 (precommits hv' (v_round v)) = Some (Some (hb, ph))) by (rewrite G5, Pc'; exact M').
+    pose proof (progress_decide E s v peer hv' e hb ph b (one_part ph) s' o
                   A1 ltac:(congruence) ltac:(congruence) A4 G6 Ehv Em A5 Hhash Hvalid A6 eq_refl
                   (one_part_complete ph Hone) ltac:(intros _; split; assumption) Eq) as D.
     rewrite A2, A3 in D. exact D.
+Qed.
+
+Lemma P3_skip rem rem' pc pc' s v peer e s' o :
+  P3 rem pc s -> is_vote_at PRECOMMIT v ->
+  vs_add pc v = (pc', false, e) -> open_for Bid rem' pc' -> same_frame pc pc' ->
+  vs_maj23 pc' = vs_maj23 pc ->
+  handle E s (IVote v peer) = (s', o) -> P3 rem' pc' s'.
+Proof.
+  intros (A1 & A2 & A3 & A4 & A5 & A6 & (K1 & K2) & (pv & L) & Op & Fr & Mn) (G4 & G5 & G6) Ea Op' Sf Mj Eq.
+  destruct Sf as (Sf1 & Sf2 & Sf3 & Sf4).
+  assert (Fr' : vs_frame PRECOMMIT pc') by (destruct Fr as (F1 & F2 & F3); unfold vs_frame; repeat split; congruence).
+  pose proof (add_precommit_hv s v peer pv pc pc' false e L G5 G6 Ea) as Ehv.
+  set (hv' := hv_put (cs_votes s) r PRECOMMIT pc') in *.
+  assert (L' : lookup_round r (hv_sets hv') = Some (pv, pc')).
+  { subst hv'. rewrite (hv_put_lookup_same _ _ _ _ pv pc L). reflexivity. }
+  rewrite (add_vote_skip s v peer hv' e A1 ltac:(congruence) Ehv) in Eq. injection Eq as <- <-.
+  unfold P3. cs. do 6 (split; [auto|]). split; [unfold locked_now; cs; split; auto|].
+  split; [exists pv; exact L'|]. split; [exact Op'|]. split; [exact Fr' | congruence].
+Qed.
+
+Lemma P3_step rem pc s d s' o :
+  P3 (d_idx d :: rem) pc s -> ~ In (d_idx d) rem -> vote_from (vs_vals pc) PRECOMMIT d ->
+  handle E s (d_input d) = (s', o) ->
+  In (ODecide h r hb) o \/
+  exists pc', P3 rem pc' s' /\ tally Bid pc' = tally Bid pc + d_power d /\ vs_vals pc' = vs_vals pc.
+Proof.
+  intros HP Hni Vf Eq.
+  pose proof HP as (_ & _ & _ & _ & _ & _ & _ & _ & Op & Fr & _).
+  pose proof Vf as (G1 & G2 & G3 & G4 & G5 & G6 & G7 & G8 & G9).
+  destruct (vs_add_open Bid (d_idx d) rem pc (d_power d) (d_vote d) Op Hni
+              (vote_from_good _ _ _ _ Fr eq_refl Vf)) as (pc' & Ea & Op' & Ta & Sf & Mono).
+  destruct (P3_core (d_idx d :: rem) rem pc pc' s (d_vote d) (d_peer d) E_none s' o HP
+              ltac:(unfold is_vote_at; auto) Ea Op' Sf Eq) as [D|HP']; [left; exact D|].
+  right. exists pc'. split; [exact HP'|]. split; [exact Ta | apply Sf].
 Qed.
 
 Lemma P3_run : forall ds pc s s' os,
@@ -499,7 +597,7 @@ Definition proposal_inputs : list input := [IProposal p; IPart h ph 0%N (Some b)
 
 Lemma phase1 idxs vals s s' os :
   ready idxs vals s -> run E s proposal_inputs = (s', os) ->
-  concat os = [OSignVote PREVOTE h r Bid] /\ ready2 idxs vals s'.
+  concat os = [OSignVote PREVOTE h r Bid] /\ ready2 idxs vals s' /\ cs_votes s' = cs_votes s.
 Proof.
   intros ((A1 & A2 & A3 & A4 & A5 & A6 & G & Hr & pv & pc & L & Rv & Rc) & Lk) Er.
   unfold proposal_inputs in Er. cbn [run] in Er.
@@ -517,7 +615,7 @@ Proof.
     destruct Lk as [Q|(Q1 & Q2 & _)].
     + rewrite Q, Hbid. reflexivity.
     + rewrite Q1, Q2. unfold block_id_of, one_part. cbn. rewrite Hhash. reflexivity.
-  - exists pv, pc. split; [|split; assumption].
+  - split; [|exact S7]. exists pv, pc. split; [|split; assumption].
     destruct G as (_ & _ & Gp & _ & _ & _ & _ & _ & Gk).
     destruct Rv as (Ov & Fv & Mv & _).
     apply (P2_intro idxs pv pc s2 (cs_votes s)); auto; try congruence.
